@@ -109,6 +109,11 @@ fn c01_family<S: Sch>(t: Tier, seed: u64, out: &mut Vec<Entry>) {
         add("2p1z-plain-then-hiding", c, Mode::Batch);
     }
     if S::BOUNDS {
+        // one opening over polynomials with different degree bounds (and one without)
+        let mut c = mk(vec![PolySpec::new(2).conc().bound(1), PolySpec::new(2).conc().bound(sup), PolySpec::new(2).conc()], 0);
+        c.enforced = Some(vec![1, sup]);
+        add("3p1z-two-bounds", c.clone(), Mode::Single);
+        add("3p1z-two-bounds-batch", c, Mode::Batch);
         add("1p1z-bound-eq", mk(vec![PolySpec::new(len).bound(len - 1)], 0), Mode::Single);
         if !quick {
             add("1p1z-bound-sup", mk(vec![PolySpec::new(len - 1).bound(sup)], 0), Mode::Single);
@@ -268,6 +273,8 @@ where
         add("relabel-gap-below", mk(vec![PolySpec::new(2).bound(sup)], Some(vec![sup - 1, sup])), Box::new(move |c| c04::verifier_side::<S>(c, Attack::Relabel(1), false)), false);
         add("relabel-second-of-two", mk(vec![PolySpec::new(2).conc().bound(sup), PolySpec::new(sup + 1).bound(sup)], Some(vec![1, sup])), Box::new(move |c| c04::verifier_side::<S>(c, Attack::RelabelAt(1, 1), false)), false);
         add("relabel-second-of-two-hiding", mk(vec![PolySpec::new(2).conc().bound(sup).hide(1), PolySpec::new(3).bound(sup).hide(1)], Some(vec![1, sup])), Box::new(move |c| c04::verifier_side::<S>(c, Attack::RelabelAt(1, 1), false)), false);
+        add("label-added-not-enforced", mk(vec![PolySpec::new(sup + 1)], Some(vec![sup])), Box::new(move |c| c04::verifier_side::<S>(c, Attack::Relabel(sup - 1), false)), false);
+        add("label-added-enforced", mk(vec![PolySpec::new(sup + 1)], Some(vec![sup - 1, sup])), Box::new(move |c| c04::verifier_side::<S>(c, Attack::Relabel(sup - 1), false)), false);
         add("twin-relabel", mk(vec![PolySpec::new(2).bound(d1)], Some(vec![d1, d2])), Box::new(move |c| c04::verifier_side::<S>(c, Attack::Relabel(d2), true)), true);
         if name == "marlin" {
             add("shift-identity", mk(vec![PolySpec::new(sup + 1)], Some(vec![d1, d2])), Box::new(move |c| c04::verifier_side::<S>(c, Attack::ShiftIdentity(d1), false)), false);
@@ -368,6 +375,17 @@ fn c05_family<S: Sch>(t: Tier, seed: u64, out: &mut Vec<Entry>) {
     add("equiv-honest-3p3z", mk(3, 3, vec![(0, 0), (1, 0), (1, 1), (2, 1), (2, 2), (0, 2)]), Box::new(|c| c05::equiv::<S>(c, 2, true)));
     add("equiv-1p3z", lin(mk(1, 3, vec![(0, 0), (0, 1), (0, 2)])), Box::new(|c| c05::equiv::<S>(c, 4, false)));
     add("equiv-2p3z", lin(mk(2, 3, vec![(0, 0), (1, 0), (0, 1), (1, 2)])), Box::new(|c| c05::equiv::<S>(c, 4, false)));
+    if S::HIDING && name != "hyrax" {
+        // a batch whose first point label queries only a non-hiding polynomial and whose second one queries a hiding one
+        let mut c = Cfg::new(std_size::<S>(t, 1), vec![PolySpec::new(2).conc(), PolySpec::new(2).conc().hide(1)]);
+        c.seed = seed;
+        c.npoints = 2;
+        c.queries = vec![(0, 0), (1, 1)];
+        c.rng_nonzero = true;
+        add("equiv-plain-then-hiding-2p2z", lin(c.clone()), Box::new(|c| c05::equiv::<S>(c, 3, false)));
+        c.queries = vec![(1, 0), (0, 1)];
+        add("equiv-hiding-then-plain-2p2z", lin(c), Box::new(|c| c05::equiv::<S>(c, 3, false)));
+    }
     if matches!(name, "marlin" | "sonic" | "pst13") {
         add("equiv-forged-w-2p2z", lin(mk(2, 2, vec![(0, 0), (1, 0), (0, 1), (1, 1)])), Box::new(|c| c05::equiv_mode::<S>(c, 3, false, true)));
         add("equiv-forged-w-1p3z", lin(mk(1, 3, vec![(0, 0), (0, 1), (0, 2)])), Box::new(|c| c05::equiv_mode::<S>(c, 4, false, true)));
@@ -618,6 +636,13 @@ fn catalogue_inner(prop: &str, t: Tier, seed: u64, out: &mut Vec<Entry>) {
             batchf!(Marlin);
             batchf!(Sonic);
             batchf!(Pst13);
+            for (tag, ps, hid) in [("plain", PolySpec::new(2), 0usize), ("hiding", PolySpec::new(2).conc().hide(1), 1)] {
+                let mut c = Cfg::new(Size::uni(3, 3, hid), vec![ps]);
+                c.seed = seed;
+                c.rng_nonzero = true;
+                let c2 = c.clone();
+                let mut en = e(format!("ipa/extra-round-padded-key-{}", tag), t, symtxt, format!("{:?}; committer key extended by 4 identity elements, p' = p + X^4 (q0 + q1 X)", c.sz), move || c03::ipa_extra_rounds(&c2)); en.funcs = f.clone(); if quick { en.lim.wall_s = 45.0; } out.push(en);
+            }
             for (id, drop) in [("pst13/w-short", true), ("pst13/w-long", false)] {
                 let mut c = Cfg::new(Size::mv(2, 2, 0), vec![PolySpec::new(3)]);
                 c.seed = seed;
@@ -823,6 +848,9 @@ fn catalogue_inner(prop: &str, t: Tier, seed: u64, out: &mut Vec<Entry>) {
                 let mut en = e(format!("marlin/trim-{}", i), t, "the whole SRS (symbolic trapdoor and generators)", format!("{:?}", r), move || c09::marlin_trim(&r1, seed)); en.funcs = f.clone(); out.push(en);
                 let mut en = e(format!("sonic/trim-{}", i), t, "the whole SRS (symbolic trapdoor and generators)", format!("{:?}", r), move || c09::sonic_trim(&r2, seed)); en.funcs = f.clone(); out.push(en);
             }
+            for (nv, d) in if quick { vec![(2usize, 2usize), (3, 2)] } else { vec![(2usize, 2usize), (3, 2), (2, 3), (3, 3)] } {
+                let mut en = e(format!("pst13/keyset-nv{}-d{}", nv, d), t, "nothing (input-free: executed and asserted on one concrete path, not solver-decided)", format!("{} variables, max degree {}: monomial set, pairing identities of every power, trim", nv, d), move || c15::keyset(nv, d, seed)); en.funcs = f.clone(); out.push(en);
+            }
             let mut en = e("transparent/ipa-hyrax".into(), t, "nothing (input-free computations: executed and asserted, not solver-decided)", "IPA max_degree 1,3,6; Hyrax 2,4 variables".into(), move || c09::transparent(seed)); en.funcs = f.clone(); out.push(en);
             let mut en = e("prepared/doublings".into(), t, "the SRS (symbolic)", "first 12 and last 4 of 255 doublings".into(), move || c09::prepared(seed)); en.funcs = f.clone(); out.push(en);
         }
@@ -976,7 +1004,7 @@ fn catalogue_inner(prop: &str, t: Tier, seed: u64, out: &mut Vec<Entry>) {
             look!(LigeroMl);
             look!(Brakedown);
             add("setup/degenerate-requests".into(), "zero degree, zero/odd/missing variables, trim beyond the parameters".into(), Box::new(move || c17::setup_degenerate(seed)));
-            for which in 0..=5usize {
+            for which in 0..=7usize {
                 add(format!("num-vars/scenario-{}", which), "Hyrax / PST13 / multilinear PST with mismatched numbers of variables".into(), Box::new(move || c17::wrong_num_vars(which, seed)));
             }
             {
@@ -1000,11 +1028,17 @@ fn catalogue_inner(prop: &str, t: Tier, seed: u64, out: &mut Vec<Entry>) {
                     }
                     if <$S as Sch>::BOUNDS {
                         shapes.push(("bounds", vec![PolySpec::new(2).conc().bound(sup - 1), PolySpec::new(2).conc().bound(sup)], 0, Some(vec![sup, sup - 1, sup - 1]), false));
+                        // symbolic coefficients under a bound: the zero polynomial (identity shifted commitment) is reached
+                        shapes.push(("bound-symbolic-poly", vec![PolySpec::new(2).bound(sup - 1)], 0, Some(vec![sup - 1]), false));
                         shapes.push(("full-srs", vec![PolySpec::new(2).conc().bound(sup)], 0, Some(vec![sup]), true));
+                    }
+                    if name == "pst13" {
+                        shapes.push(("nv3-deg2", vec![PolySpec::new(2).conc()], 0, None, false));
                     }
                     for (tag, polys, hid, enforced, full) in shapes {
                         let mut sz = std_size::<$S>(t, hid);
                         if full { sz.max_degree = sz.supported; }
+                        if tag == "nv3-deg2" { sz = Size::mv(3, 2, 0); }
                         let n = polys.len();
                         let mut c = Cfg::new(sz, polys).points(2, (0..n).map(|i| (i, 0)).chain([(0usize, 1usize)]).collect());
                         c.seed = seed;
